@@ -127,3 +127,146 @@ class OrderInOut(CircuitContract):
             yield ('raise/state-untouched', state_eq(ctx, st['h'].S, st['S0'], ALL))
         else:
             yield ('no-other-raise', z3.BoolVal(False), {'raised': n, 'witness': 'raises-' + n})
+
+
+# ---------------------------------------------------------------- set_inputs for a list of ANY length ----------
+from ..pyvc.interp import Model, _simp
+from ..pyvc.values import GT, Native, Unsupported
+from .C02 import AllGatesLoop
+
+_P = [0]
+
+
+class PrefixList(Model):
+    """a python list equal to the first k elements of src (an immutable abstract sequence); membership through the
+    prefix count pc(k, x) = #{j < k : src[j] = x}; append(x) is only accepted for x = src[k]"""
+    prefix = []
+    is_label_list_view = True
+
+    def __init__(self, src, pc, k):
+        self.src, self.pc, self.k = src, pc, k
+
+    @property
+    def n(self):
+        return self.k
+
+    def elem(self, i):
+        return self.src.elem(i)
+
+    def count(self, l):
+        return self.pc(self.k, l)
+
+    def concrete_len(self, it=None):
+        return None
+
+    def m_len(self, it):
+        return Sym(self.k)
+
+    def m_contains(self, it, x):
+        return _simp(self.pc(self.k, it.label_term(x)) > 0)
+
+    def m_copy_list(self, it):
+        return PrefixList(self.src, self.pc, self.k)
+
+    def m_getattr(self, it, name):
+        if name == 'append':
+            def append(x):
+                it.ctx.check('appended-element-is-the-next-of-the-source', it.label_term(x) == self.src.elem(self.k))
+                self.k = self.k + 1
+            return Native('list.append', append)
+        raise Unsupported('prefix list: .' + name)
+
+
+class PrefixCopyLoop:
+    """for _input in inputs: if <not an INPUT gate> or _input in new_inputs: raise; new_inputs.append(_input)
+    closed form: new_inputs = inputs[:k]; invariant: the first k labels are INPUT gates and pairwise distinct (prefix counts <= 1)"""
+
+    def __init__(self, h):
+        self.h = h
+        self.pc = None
+
+    def applies(self, it, env, iterable):
+        self.src = iterable
+        return isinstance(iterable, (CM.AbsLabelSeq, CM.LabelList)) and iterable.concrete_len(it) is None
+
+    def _setup(self, it, env):
+        if self.pc is not None:
+            return
+        _P[0] += 1
+        pc = z3.Function(f'pcin!{_P[0]}', I, LabelSort, I)
+        self.pc = pc
+        src, ctx = self.src, it.ctx
+        k, x = z3.Int('k!pp'), z3.Const('x!pp', LabelSort)
+        n = src.n
+        ctx.assume(z3.ForAll([x], pc(0, x) == 0))
+        ctx.assume(z3.ForAll([k, x], z3.Implies(z3.And(k >= 0, k < n), pc(k + 1, x) == pc(k, x) + z3.If(src.elem(k) == x, 1, 0)), patterns=[pc(k + 1, x)]))
+        ctx.assume(z3.ForAll([x], pc(n, x) == src.count(x)))
+        ctx.assume(z3.ForAll([k, x], z3.Implies(z3.And(k >= 0, k <= n), z3.And(pc(k, x) >= 0, pc(k, x) <= src.count(x))), patterns=[pc(k, x)]))
+
+    def inv(self, it, env, k):
+        self._setup(it, env)
+        S0, src = self.h.S, self.src
+        cur = env['new_inputs']
+        j, x = it.ctx.fresh(I, 'jp'), it.ctx.fresh(LabelSort, 'xp')
+        shape = z3.BoolVal(len(cur.items) == 0) & (k == 0) if isinstance(cur, VList) else z3.And(cur.k == k, z3.BoolVal(cur.src is src))
+        return [('new-list-is-the-prefix', shape),
+                ('prefix-labels-are-input-gates', z3.Implies(z3.And(j >= 0, j < k), z3.And(S0.dom(src.elem(j)), S0.typ(src.elem(j)) == GT['INPUT']))),
+                ('prefix-labels-pairwise-distinct', self.pc(k, x) <= 1)]
+
+    def inv_assume(self, it, env, k):
+        self._setup(it, env)
+        S0, src = self.h.S, self.src
+        j, x = z3.Int('j!pp'), z3.Const('x!pq', LabelSort)
+        return [('a', z3.ForAll([j], z3.Implies(z3.And(j >= 0, j < k), z3.And(S0.dom(src.elem(j)), S0.typ(src.elem(j)) == GT['INPUT'])))),
+                ('b', z3.ForAll([x], self.pc(k, x) <= 1))]
+
+    def havoc(self, it, env):
+        self._setup(it, env)
+
+    def install(self, it, env, k):
+        self._setup(it, env)
+        env['new_inputs'] = PrefixList(self.src, self.pc, k)
+        for nm, f in self.inv_assume(it, env, k):
+            it.ctx.assume(f)
+        # instances of the prefix-count axioms at the current element (pure instantiation hints)
+        src, pc = self.src, self.pc
+        e = src.elem(k)
+        it.ctx.assume(z3.Implies(z3.And(k >= 0, k < src.n), z3.And(pc(k + 1, e) == pc(k, e) + 1, pc(k + 1, e) <= src.count(e), pc(k, e) >= 0)))
+
+
+class SetInputsAny(CircuitContract):
+    """set_inputs(inputs) for a list of ANY length on an arbitrary WF circuit: accepted exactly when every label is an INPUT
+    gate, no label is repeated and every INPUT gate is listed; then the input list is the argument, nothing else changes"""
+    qualname = 'Circuit.set_inputs'
+    name = 'set_inputs/any-length'
+
+    def setup(self, it, ctx):
+        c, h = self.circuit(it, ctx)
+        seq = CM.AbsLabelSeq(ctx, tag='ins')
+        # representation fact of lists (lean: count >= 2 gives two positions): used for the raise condition only
+        it.loop_specs[(CIRC + '::Circuit.set_inputs', 1)] = AllGatesLoop(h, None, listed=lambda x: seq.count(x) > 0)
+        it.loop_specs[(CIRC + '::Circuit.set_inputs', 2)] = PrefixCopyLoop(h)
+        return [c, seq], {}, {'h': h, 'S0': h.S, 'seq': seq}
+
+    def valid(self, S0, seq):
+        l, i = z3.Const('l!sv', LabelSort), z3.Int('i!sv')
+        return z3.And(z3.ForAll([i], z3.Implies(z3.And(i >= 0, i < seq.n), z3.And(S0.dom(seq.elem(i)), S0.typ(seq.elem(i)) == GT['INPUT']))),
+                      z3.ForAll([l], seq.count(l) <= 1),
+                      z3.ForAll([l], z3.Implies(z3.And(S0.dom(l), S0.typ(l) == GT['INPUT']), seq.count(l) > 0)))
+
+    def post(self, it, ctx, result, st):
+        h, S0, seq = st['h'], st['S0'], st['seq']
+        yield from self.wf_post(it, ctx, h, rank=S0.rank)
+        S1 = h.S
+        i, l = ctx.fresh(I, 'is'), ctx.fresh(LabelSort, 'ls')
+        yield ('accepted-only-valid-requests', self.valid(S0, seq))
+        yield ('inputs-are-the-argument', z3.And(S1.in_n == seq.n, z3.Implies(z3.And(i >= 0, i < seq.n), S1.in_elem(i) == seq.elem(i)), S1.in_cnt(l) == seq.count(l)))
+        yield ('frame', state_eq(ctx, S1, S0, GATES + USERS + ['out_n', 'out_elem', 'out_cnt'] + BLK))
+
+    def on_raise(self, it, ctx, exc, st):
+        n = self.exc_name(exc)
+        if n == 'CircuitValidationError':
+            yield ('raise/only-invalid-requests', z3.Not(self.valid(st['S0'], st['seq'])), {'raised': n})
+            yield ('raise/state-untouched', state_eq(ctx, st['h'].S, st['S0'], ALL))
+        else:
+            yield ('no-raise', z3.BoolVal(False), {'raised': n, 'witness': 'raises-' + n})
